@@ -420,8 +420,25 @@ func cmdRun(args []string) {
 		fmt.Fprintln(os.Stderr, "  init:", l)
 	}
 	spec := &HarnessSpec{Name: *name, Pkg: *pkg, Unwind: *unwind, MaxPaths: *maxPaths, MaxSecs: *maxSecs, PanicIsBug: *panicBug}
+	ex.forkSites = map[string]int{}
 	res := ex.runJob(init, Job{Spec: spec, Params: params, Label: *name}, *verbose)
 	printResult(res)
+	type kv struct {
+		k string
+		v int
+	}
+	var fsites []kv
+	for k, v := range ex.forkSites {
+		fsites = append(fsites, kv{k, v})
+	}
+	sort.Slice(fsites, func(i, j int) bool { return fsites[i].v > fsites[j].v })
+	for i, f := range fsites {
+		if i >= 15 {
+			break
+		}
+		fmt.Printf("  fork-site x%d: %s\n", f.v, f.k)
+	}
+	fmt.Printf("  if-converted: %d\n", ex.ifConverted)
 	ex.solver.Close()
 }
 
